@@ -4,7 +4,7 @@ ENGINES = [
     {
         "name": "kani-cbmc",
         "path": "/verif/kani/core",
-        "serves_properties": ["C01", "C05", "C08", "C13", "C15", "C16", "C17", "C20"],
+        "serves_properties": ["C01", "C05", "C08", "C10", "C13", "C15", "C16", "C17", "C20"],
         "kind_free_text": "Kani 0.68 proof harnesses (kani::any inputs, kani::unwind bounds, unwinding assertions on) over the "
         "real shuttle crates compiled with feature verif-hooks; decided by CBMC 6.11 + CaDiCaL. The same harnesses build "
         "natively against a stand-in for the kani crate (src/shim.rs, src/bin/native.rs) for harness validation and for "
@@ -25,14 +25,9 @@ _K = "bounded model checking of the compiled real code (Kani/CBMC, SAT): "
 
 CLAIMS = {
     "C01": {
-        "text": "Solver verdict for every recorded schedule of 3 steps over two tasks and random markers: the real ReplayScheduler "
-        "returns exactly the recorded task at every decision and serves exactly the seeded data stream at every random marker, "
-        "runs exactly one execution and reports the recorded seed; together with C16 (string form) and C10-style reseeding of "
-        "RandomDataSource this is the replay side of the property. The recording side and whole-program record->replay equality "
-        "are not covered (engine-level harnesses exceed the solver).",
-        "note": "K-pure harness over ReplayScheduler/RandomDataSource with coroutine-less stub tasks; schedule length 3, two tasks, "
-        "both always offered; the refusal path (recorded task not runnable) and the nondeterminism checker are outside.",
-        "technique": _K + "all 27 three-step schedules in one query",
+        "text": "Solver verdict for every recorded schedule of 3 (quick) / 4 (thorough) steps over two tasks and random markers: the real ReplayScheduler returns exactly the recorded task at every decision and serves exactly the seeded data stream at every random marker, runs exactly one execution and reports the recorded seed; it never substitutes another task for a recorded one that is not offered; the seed RandomDataSource reports for each of its first three executions reproduces that execution's data stream; the nondeterminism checker accepts a replaying execution that repeats the recording one; offered tasks may be runnable or parked. Recording side, draws only: inside an execution state every shuttle::rand draw appends exactly one Random marker in position and is served by exactly one call of the scheduler. Together with C16 (string form) this is the replay side of the property plus the draw half of the recording side. Recording of task steps (ExecutionState::schedule) and whole-program record->replay equality are not covered (engine-level harnesses exceed the solver).",
+        "note": "K-pure harnesses over ReplayScheduler / RandomDataSource / UncontrolledNondeterminismCheckScheduler with coroutine-less stub tasks; concrete data seeds (PCG's 128-bit multiply on symbolic seeds does not finish).",
+        "technique": _K + 'all 27 (81) schedules in one query; symbolic missing task; symbolic inner answers',
     },
     "C05": {
         "text": "Solver verdict over every sequence of 4 (quick) / 6 (thorough) park / unpark / spurious wake-up / block operations "
@@ -43,19 +38,25 @@ CLAIMS = {
         "technique": _K + "symbolic operation sequences against a token model",
     },
     "C08": {
-        "text": "Solver verdict for the transparent-wrapper clause: MetricsScheduler forwards task list, current, is_yielding, "
-        "random draws and new_execution unchanged and returns the inner scheduler's answers, for all argument values in the "
-        "bound. The runtime side of the contract is not covered (engine-level harness exceeds the solver).",
-        "note": "only the MetricsScheduler wrapper; annotation / portfolio / nondeterminism-check wrappers and "
-        "ExecutionState::schedule are outside.",
-        "technique": _K + "symbolic arguments and inner answers through the wrapper",
+        "text": "Solver verdict for the transparent-wrapper clause: the metrics wrapper, the annotation wrapper (feature off), the portfolio stop-flag wrapper (flag down) and the nondeterminism checker while recording forward task list, current, is_yielding, random draws and new_execution unchanged and return the inner scheduler's answers, for all argument values in the bound; the portfolio wrapper with the flag up ends the execution / the run without consulting the inner scheduler. The runtime side of the contract is not covered (engine-level harness exceeds the solver).",
+        "note": 'wrappers only; ExecutionState::schedule (task list contents, yielding flag, who runs next) is outside.',
+        "technique": _K + 'symbolic arguments and inner answers through each wrapper',
+    },
+    "C10": {
+        "text": "Solver verdict for the seed-determinism clause of the random scheduler: over every operation history in the bound "
+        "(2 iterations, two operations per iteration; construction seeds 0x12345678, and in the thorough tier 0 and u64::MAX, each a data draw or a decision among 1..3 offered tasks), the "
+        "first iteration reports the construction seed, the seed reported for any iteration, given to a fresh one-iteration scheduler, "
+        "reproduces that iteration's decisions and data draws exactly, every choice is one of the offered tasks, and the iteration "
+        "budget is exact. Uniformity, independence and eventual coverage are probabilistic statements and are not covered; the "
+        "uniform random walk scheduler is not covered.",
+        "note": "concrete construction seeds (PCG's 128-bit multiply on a symbolic seed finishes only up to 8 seed bits); rand's "
+        "rejection loop is bounded by a passing unwinding assertion; environment variables stubbed unset.",
+        "technique": _K + "symbolic operation histories and symbolic iteration index, concrete seeds",
     },
     "C13": {
-        "text": "Solver verdict for the iteration-budget clause on the round-robin scheduler (budgets 0..=3: exactly budget executions, "
-        "then None forever) and the replay scheduler (exactly one). Step-bound enforcement inside the runtime is not covered.",
-        "note": "random / PCT / DFS budgets are outside (env-var reads, unbounded rejection sampling in rand); "
-        "ExecutionState::schedule's step-bound test is outside (engine-level harness exceeds the solver).",
-        "technique": _K + "symbolic budget, unrolled call sequence",
+        "text": 'Solver verdict for the iteration-budget clause on the round-robin scheduler (budgets 0..=3: exactly budget executions, then None forever), the replay scheduler (exactly one) and DFS on a choice-free body (None / Some(0..=3)); and for the step-count arithmetic: the bound comparison trips exactly when the steps (decisions plus draws) since the last reset reach the bound, for every usize bound, and reset_step_count restarts the count at zero. What the runtime does when the comparison trips, the Runner loop and the time limit are not covered.',
+        "note": "the random scheduler's budget is asserted by the C10 check; PCT / URW budgets are outside; ExecutionState::schedule's reaction (FailAfter / ContinueAfter) is outside (engine-level harness exceeds the solver).",
+        "technique": _K + 'symbolic budget, unrolled call sequence; symbolic reset point, schedule lengths and bound',
     },
     "C15": {
         "text": "Solver verdict over all u32 entries for clocks of the stated lengths: partial_cmp is the product order with the "
@@ -66,21 +67,14 @@ CLAIMS = {
         "technique": _K + "all entry values for fixed clock lengths",
     },
     "C16": {
-        "text": "Solver verdict over all inputs within the bounds: the varint kernels round-trip for every u64 and the decoder is "
-        "total on every byte string <= 11 bytes; the schedule parser returns (never panics) on every byte vector of length <= 2 "
-        "(quick) / 3 (thorough) that hex decoding can produce, and rejects what the hex layer rejects. The genuine decoder "
-        "panics found on the pinned tree were repaired (fix: 7283ba1) and the harnesses that expose them stay in the check.",
-        "note": "Kani/CBMC model of the dev profile; `hex` crate and string front-end replaced by an environment stub returning "
-        "arbitrary bytes; whole-schedule round trip with symbolic contents and byte vectors > 3 bytes are outside the bound "
-        "(measured out of memory), as are symbolic strings.",
-        "technique": _K + "all u64 / all byte strings up to the bound",
+        "text": 'Solver verdict over all inputs within the bounds: the varint kernels round-trip for every u64 with exact values and the decoder is total on every byte string <= 11 bytes; the schedule parser returns (never panics) on every byte vector of length <= 2 (quick) / 3 (thorough) that hex decoding can produce, rejects what the hex layer rejects, and accepts a header with no step data exactly when its task-id width (a varint of 1, 2, 5 / 9, 10 bytes, all payload bits symbolic) is 1..=64 and the announced length is 0. The genuine decoder panics found on the pinned tree were repaired (fix: 7283ba1) and the harnesses that expose them stay in the check.',
+        "note": 'Kani/CBMC model of the dev profile; `hex` crate and string front-end replaced by an environment stub returning arbitrary bytes; whole-schedule round trip with symbolic contents (bitvec step packing) and fully symbolic byte vectors > 3 bytes are outside the bound (measured out of memory), as are symbolic strings.',
+        "technique": _K + 'all u64 / all byte strings up to the bound / all width varints of fixed byte length',
     },
     "C17": {
-        "text": "Solver verdict over every sequence of 4 (quick) / 6 (thorough) executor-sleep / wake / finish operations on the real "
-        "Task: a wake that arrives after the latest poll keeps (or makes) the task runnable, a pending task that was not woken "
-        "sleeps, the wake flag is consumed exactly once. JoinHandle, abort semantics, block_on and the executor loop are not covered.",
-        "note": "only the no-lost-wake-up protocol at Task level (sleep_unless_woken / wake); result delivery clauses are outside.",
-        "technique": _K + "symbolic operation sequences against a wake-flag model",
+        "text": 'Solver verdict over every sequence of 4 (quick) / 6 (thorough) operations {executor sleep after Pending, wake or abort request, finish, block inside the poll, release} on the real Task: a wake (or abort request) that arrives after the latest poll keeps (or makes) the task runnable, a pending task that was not woken sleeps, the wake flag is consumed exactly once. JoinHandle result delivery, cancellation semantics, block_on and the executor loop are not covered.',
+        "note": 'only the no-lost-wake-up protocol at Task level (sleep_unless_woken / wake through Task::abort); result delivery clauses are outside.',
+        "technique": _K + 'symbolic operation sequences against a wake-flag model',
     },
     "C20": {
         "text": "Solver verdict for every u64 probe: every constructor / conversion / clone / set operator of the deterministic HashMap "
@@ -117,9 +111,6 @@ NOT_APPLICABLE = {
     "C09": "DfsScheduler is a K-pure target and the harness (kani/core/src/c09.rs: every depth-2 choice tree, validated natively on "
     "20000 random trees) exists, but its symbolic-length `levels` vector exhausts 12 GB and 34 GB in CBMC's post-processing; "
     "no instance was decided, so nothing is claimed.",
-    "C10": "the random schedulers call rand's rejection-sampling loops (unbounded: unwinding assertions fail) and 128-bit PCG "
-    "arithmetic on symbolic seeds (the RandomDataSource reseed harness c10_data_source_reseed did not finish in 15 min); "
-    "uniformity and eventual coverage are probabilistic statements, not solver questions.",
     "C11": "PctScheduler keeps priorities in a HashMap seeded with 16 entries and samples with rand (shuffle, sample, gen_range: "
     "unbounded rejection loops); hashbrown's SIMD group probing alone dominated every harness it was reachable from; the "
     "detection-probability bound is a probabilistic statement.",
